@@ -132,6 +132,15 @@ impl<L: Language> Fixer<L> {
   pub(crate) fn used_vars(&self) -> HashSet<&str> {
     self.template.used_vars()
   }
+
+  /// check if util rules used in the expansions are defined
+  pub(crate) fn verify_util(&self) -> Result<(), RuleSerializeError> {
+    for expansion in [&self.expand_start, &self.expand_end].into_iter().flatten() {
+      expansion.matches.verify_util()?;
+      expansion.stop_by.verify_util()?;
+    }
+    Ok(())
+  }
 }
 
 impl<D, L, C> Replacer<D> for Fixer<L>
